@@ -257,6 +257,12 @@ def matrix_exprs(rng, quick):
         vc = v.replace(",", ";")
         out += ["%s cross %s" % (u, v), "(%s cross %s) dot %s" % (u, v, u), "(%s cross %s) dot %s" % (u, v, v),
                 "%s cross %s + %s cross %s" % (u, v, v, u), "%s cross %s" % (uc, vc), "%s dot %s" % (uc, vc), "|%s|" % u, "|%s|" % uc]
+    # 1x1 matrices everywhere a vector, a matrix or a scalar could stand
+    for a in ["[2]", "[0]", "[-3]", "[2+i]"]:
+        for b in ["[3]", "[0]", "2", "[1,2]", "[1;2]", "[1,2;3,4]"]:
+            for op in ["+", "-", "*", "/", "dot", "cross", "^", "%"]:
+                out += ["%s %s %s" % (a, op, b), "%s %s %s" % (b, op, a)]
+        out += ["|%s|" % a, "-%s" % a, "%s!" % a, "√%s" % a, "determinant(%s)" % a, "inverse(%s)" % a, "transpose(%s)" % a, "⌈%s⌉" % a, "%s as m" % a, "%s(1)" % a]
     out += ["identity(%d)" % n for n in range(1, 6)] + ["identity(0)", "identity(-1)", "identity(2.5)", "identity(i)", "identity([1])",
             "[1, 2 m]", "[1, sin]", "[[1,2], 3]", "[1, [2]]", "[x, y; 1, 2]", "[1/0, 2]", "[1, 2; 3]", "determinant([1,2,3;4,5,6])",
             "inverse([1,2,3;4,5,6])", "transpose(3)", "determinant(2)", "[1,2;3,4] * identity(2)", "identity(3) * [1;2;3]"]
@@ -342,6 +348,51 @@ def hist_random(rng, count, maxlen=40):
                 texts.append(HIST_PROBES)
         texts.append(HIST_PROBES + "g\nk\ny\n")
         yield gen.hist_case("hr%d" % k, texts)
+
+
+def hist_generated(rng, count):
+    """histories built from templates over a small universe of names with generated expressions: copies (also through a
+    grouping or a call), redefinitions with renamed parameters, parameters that shadow globals / built-ins, deletes,
+    clears, calls of every arity, then a probe text"""
+    names_v = ["x", "y", "acc", "Rate"]
+    names_f = ["f", "h", "k", "sq", "w"]
+    params = ["a", "n", "x", "y", "e", "pi", "f", "sin", "acc"]
+    g = gen.ExprGen(rng, vars_num=("x", "y", "acc"), funcs=("f", "h", "k", "sq", "sqrt", "abs", "sin"))
+    gb = gen.ExprGen(rng, vars_num=("x", "y", "acc"), funcs=("sqrt", "abs", "sin", "re"))     # bodies never call user functions:
+    for c in range(count):                                                                      # unbounded recursion is a known finding
+        texts = []
+        for _ in range(rng.choice([3, 5, 8, 12, 20, 30])):
+            r = rng.random()
+            fn, fn2 = rng.choice(names_f), rng.choice(names_f)
+            v = rng.choice(names_v)
+            p1, p2 = rng.choice(params), rng.choice(params)
+            if r < 0.15:
+                t = "%s = %s" % (v, g.expression(rng.choice([0, 1, 2])))
+            elif r < 0.3:
+                t = "%s(%s) = %s" % (fn, p1, rng.choice(["%s + 1" % p1, "%s * x" % p1, "1 / %s" % p1, "sqrt(%s)" % p1, gb.expression(1), "[%s, 1]" % p1, "%s m" % rng.randrange(1, 9)]))
+            elif r < 0.4:
+                t = "%s(%s, %s) = %s" % (fn, p1, rng.choice(params + ["0", "1"]), rng.choice(["%s + 1" % p1, "0", "%s - %s" % (p1, p2)]))
+            elif r < 0.46:
+                t = "%s(%s) = %s" % (fn, rng.choice(["0", "1", "2.5"]), rng.randrange(100))
+            elif r < 0.55:
+                t = "%s = %s" % (fn, rng.choice([fn2, "(%s)" % fn2, "sin", "%s(1)" % fn2]))
+            elif r < 0.62:
+                t = "delete %s(%s)" % (fn, rng.choice([p1, "0", "1", "%s, %s" % (p1, p2), ""]))
+            elif r < 0.68:
+                t = "delete %s" % rng.choice(names_f + names_v)
+            elif r < 0.71:
+                t = "clear"
+            elif r < 0.8:
+                t = "%s(%s)" % (fn, ", ".join(rng.choice(["1", "0", "x", "2.5", "[1,2]", "y", "sin"]) for _ in range(rng.randrange(0, 4))))
+            elif r < 0.86:
+                t = "%s = %s(%s)" % (v, fn, rng.choice(["1", "0", "x", "1, 2"]))
+            elif r < 0.9:
+                t = rng.choice(["%s = 3" % p1, "%s(q) = q" % p1, "delete %s" % p1]) if p1 in ("e", "pi", "sin") else "%s" % v
+            else:
+                t = rng.choice([fn, v, "k(q) = q", "x = x + 1", "acc = acc * 2", "Rate = 1; rate = 2; RATE"])
+            texts.append(t + "\n")
+        texts.append("x\ny\nacc\nf\nh\nk\nsq\nw\nf(1)\nh(1)\nk(1)\nsq(2)\nw(0)\nf(1, 2)\ne\npi\nsin(0)\n")
+        yield gen.hist_case("hg%d" % c, texts)
 
 
 def statement_programs(rng, count, faulty=0.3):
